@@ -129,6 +129,14 @@ func (c *cluster) checkPersisted(n, before *node, eff *effects, e Event) {
 	// contract gives Entries / CommittedEntries / Messages / Snapshot to the application until
 	// Advance; if the library rewrites them while it steps later inputs, what the application
 	// persists is not what the library decided.
+	// AcknowledgedBeforeDurable ("each node's persisted term, vote ... never regress", across a power
+	// loss as well): Ready.MustSync tells the application which writes it has to sync before it sends
+	// the Ready's messages. A granted vote or an append acknowledgement that leaves the node while the
+	// vote / the entries it promises were last written without MustSync is forgotten by a power loss:
+	// the node comes back able to vote again in that term, or without entries the leader counted.
+	if eff.unsynced != "" {
+		c.fail("AcknowledgedBeforeDurable", "node %d after %s: %s", n.id, evNames[e.K], eff.unsynced)
+	}
 	if eff.mutated != "" {
 		c.fail("ReadyMutatedAfterHandOut", "node %d: the Ready released by %s is not the Ready that was handed out: %s; persisted log afterwards: %s", n.id, evNames[e.K], eff.mutated, descLog(n))
 	}
